@@ -274,6 +274,8 @@ def cases(rng, tier):
         yield gen_sanit(rng)
     for i in range(400 if thorough else 40):
         yield gen_conv(rng)
+    for i in range(1500 if thorough else 120):
+        yield gen_qdord(rng)
     # (a) estimator
     if thorough:
         for div in range(1, 961):
@@ -1165,6 +1167,184 @@ def eval_part(d, ev):
     return nontrivial
 
 
+# ---- quarter durations set in any time order (round 6, missed seed C11-l)
+# The divisions "in force" at a time are a function of the HISTORY of set_quarter_duration calls as its docstring states
+# it: a call at t takes effect from t until the next stored change; a value already stored at t is replaced; a call that
+# neither replaces a stored value nor differs from the value in force just before t is redundant and stores nothing.
+# The oracle below replays that history on a plain dict - it never reads TimePoint.quarter, _quarter_times or the maps.
+
+def qd_replay(p0, calls):
+    """-> sorted list of (t, q) after Part(quarter_duration=p0) and the calls [(t, q), ...] in that order"""
+    st = {0: p0}
+    for t, q in calls:
+        if t in st:
+            st[t] = q
+            continue
+        before = [x for x in st if x < t]
+        if before and st[max(before)] == q:
+            continue
+        st[t] = q
+    return sorted(st.items())
+
+
+def qd_at(table, t):
+    q = table[0][1]
+    for tt, x in table:
+        if tt <= t:
+            q = x
+    return q
+
+
+def gen_qdord(rng):
+    nsec = rng.choice([2, 2, 3, 3, 4])
+    beats = rng.choice([4, 4, 3, 2])
+    secs, t, prev = [], 0, None
+    for i in range(nsec):
+        q = rng.choice([x for x in (2, 4, 6, 8, 12, 16) if x != prev])
+        prev = q
+        nb = rng.randint(1, 3)
+        secs.append({"t": t, "q": q, "end": t + nb * beats * q})
+        t = secs[-1]["end"]
+    L = t
+    bounds = [s["t"] for s in secs[1:]]
+    notes, nid = [], 0
+
+    def add(t0, dur, voice):
+        nonlocal nid
+        notes.append({"id": "n%d" % nid, "key": nid, "t": t0, "dur": dur, "kind": "note", "step": rng.choice(STEPS), "alter": None,
+                      "oct": rng.randint(2, 5), "voice": voice, "staff": 1})
+        nid += 1
+
+    # voice 1: a contiguous line on the half-quarter grid of each section (so every section boundary is an end and a start)
+    for s in secs:
+        pos, h = s["t"], s["q"] // 2
+        while pos < s["end"]:
+            dur = min(rng.choice([1, 2, 2, 3, 4, 6, 8]) * h, s["end"] - pos)
+            add(pos, dur, 1)
+            pos += dur
+    # voice 2: notes that cross a boundary (tie_notes must type the continuation with the divisions of ITS start), and long
+    # notes that start exactly on one
+    for i, b in enumerate(bounds):
+        a, c = secs[i], secs[i + 1]
+        r = rng.random()
+        if r < 0.6:
+            s0 = b - rng.choice([1, 2, 3, 4]) * (a["q"] // 2)
+            e0 = b + rng.choice([1, 2, 4, 6, 8]) * (c["q"] // 2)
+            add(max(s0, a["t"]), min(e0, c["end"]) - max(s0, a["t"]), 2 + i)
+        elif r < 0.9:
+            add(b, c["end"] - b, 2 + i)
+    # the order of the calls: a permutation, a suffix of which comes after the objects exist
+    target = [(s["t"], s["q"]) for s in secs]
+    for _ in range(12):
+        p0 = rng.choice([secs[0]["q"], rng.choice([1, 3, 4, 5, 10, 24])])
+        order = list(target)
+        mode = rng.random()
+        if mode < 0.45:
+            order.reverse()
+        elif mode < 0.9:
+            rng.shuffle(order)
+        if p0 == secs[0]["q"] and rng.random() < 0.5:
+            order.remove(target[0])
+        nlate = rng.randint(0, len(order))
+        early, late = order[:len(order) - nlate], order[len(order) - nlate:]
+        if qd_replay(p0, early + late) == target:
+            break
+    else:
+        p0, early, late = secs[0]["q"], target[1:], []
+    return {"k": "qdord", "divs": p0, "qd": [list(x) for x in early], "qd_late": [list(x) for x in late], "ts": [[0, beats, 4]],
+            "meas": [], "notes": notes, "slurs": [], "end": L, "warm": rng.choice([0, 0, rng.randint(1, 63)])}
+
+
+def eval_qdord(d, ev):
+    import partitura.score as S
+    import partitura.utils.music as M
+
+    d = json.loads(json.dumps(d))
+    part, _ = build(d)
+    warm = d.get("warm", 0)
+
+    def look():
+        # read-only views between the steps: must not change anything
+        if warm & 1:
+            call(part.note_array)
+        if warm & 2:
+            [n.symbolic_duration for n in part.iter_all(S.GenericNote, include_subclasses=True)]
+        if warm & 4:
+            call(part.quarter_duration_map, 0)
+        if warm & 8:
+            call(part.beat_map, 0)
+
+    look()
+    for t, q in d.get("qd_late", []):
+        part.set_quarter_duration(t, q)
+        look()
+    table = qd_replay(d["divs"], [tuple(x) for x in d.get("qd", []) + d.get("qd_late", [])])
+    if part.first_point is None:
+        return False
+    out = ev.oracle
+    # the maps the measures are computed from
+    for t in sorted(set([x for x, _ in table] + [x - 1 for x, _ in table if x > 0] + [d["end"]])):
+        r, exc = call(part.quarter_duration_map, t)
+        if exc is not None or int(r) != qd_at(table, t):
+            out.append("qdord/quarter-map: quarter_duration_map(%d) = %s, the calls put %d in force" % (t, exc or r, qd_at(table, t)))
+            break
+    snd0, na0 = sounding(part), na_rows(part)
+    _, exc = call(S.add_measures, part)
+    if exc is not None:
+        out.append("add_measures/raises: %r on sections %s" % (exc, table))
+        return False
+    # bars: within every stretch of constant divisions, bars of beats*4/beat_type quarters from the stretch's start
+    _, b, bt = d["ts"][0]
+    exp, edges = [], [x for x, _ in table] + [d["end"]]
+    for (s, q), e in zip(table, edges[1:]):
+        blen = Fraction(4 * b * q, bt)
+        if blen.denominator != 1 or s >= e:
+            exp = None
+            break
+        pos = s
+        while pos < e:
+            exp.append((pos, min(pos + int(blen), e)))
+            pos += int(blen)
+    got = [(m.start.t, m.end.t) for m in part.iter_all(S.Measure)]
+    if exp is not None and got != exp:
+        out.append("qdord/measures: %s, expected %s for divisions %s" % (got, exp, table))
+    if [m.number for m in part.iter_all(S.Measure)] != list(range(1, len(got) + 1)):
+        out.append("qdord/numbers: %s" % [m.number for m in part.iter_all(S.Measure)])
+    look()
+    n0 = len(list(part.iter_all(S.Note)))
+    _, exc = call(S.tie_notes, part)
+    if exc is not None:
+        out.append("tie_notes/raises: %r" % (exc,))
+        return True
+    if sounding(part) != snd0:
+        out.append("qdord-tie_notes/note-array: changed from %s to %s" % (snd0, sounding(part)))
+    elif na0 is not None and na_rows(part) not in (None, na0):
+        out.append("qdord-tie_notes/note-array: Part.note_array() changed from %s to %s" % (na0, na_rows(part)))
+    check_chains(part, "qdord-tie_notes", out)
+    check_within_measure(part, "qdord-tie_notes", out)
+    cnt = 0
+    for n in part.iter_all(S.GenericNote, include_subclasses=True):
+        sd = n.symbolic_duration
+        if not sd:
+            continue
+        q = qd_at(table, n.start.t)   # the divisions in force at the note's start, from the history of calls alone
+        dur = n.end.t - n.start.t
+        ex = numeric_exact(sd) if isinstance(sd, dict) else None
+        if ex is None:
+            num, e = call(M.symbolic_to_numeric_duration, sd, q)
+            bad = e is not None or abs(num - dur) > 1e-9 * max(1, dur)
+        else:
+            bad = ex * q != dur
+        if bad and cnt < 3:
+            cnt += 1
+            out.append("qdord-tie_notes/symbolic: %s %s [%s,%s) has symbolic duration %s = %s divs under the %d divisions per quarter in "
+                       "force at its start (calls: early %s, late %s), numeric duration %s" % (
+                           type(n).__name__, n.id, n.start.t, n.end.t, sd, (ex * q) if ex is not None else "?", q,
+                           d.get("qd"), d.get("qd_late"), dur))
+    ev.info = {"qdord_late": len(d.get("qd_late", [])), "split": len(list(part.iter_all(S.Note))) - n0}
+    return True
+
+
 def _num(t):
     return W.q(W.as_fraction(t))
 
@@ -1635,6 +1815,8 @@ def evaluate(d):
         nontrivial = eval_sanit(d, ev)
     elif k == "conv":
         nontrivial = eval_conv(d, ev)
+    elif k == "qdord":
+        nontrivial = eval_qdord(d, ev)
     ev.key = ("|".join(ev.requests)[:2000] or repr(d)) if nontrivial else None
     return ev
 
@@ -1657,6 +1839,12 @@ def shrink(d):
         for f in ("xties", "xgraces", "tuplets", "xslurs"):
             for i in range(len(d.get(f, []))):
                 yield dict(d, **{f: d[f][:i] + d[f][i + 1:]})
+    if d.get("k") == "qdord":
+        for i in range(len(d["notes"])):
+            yield dict(d, notes=d["notes"][:i] + d["notes"][i + 1:])
+        if d.get("warm"):
+            yield dict(d, warm=0)
+        return
     if d.get("k") in ("part", "splitnote", "tuplets", "sanit"):
         ns = d["notes"]
         for i in range(len(ns)):
